@@ -218,6 +218,11 @@ impl DecodeBuffer {
             r is Ok && offset > old(self).buffer.view().len() ==>
                 final(self).buffer.view() == old(self).buffer.view() + match_copy(old(self).dict_content@ + old(self).buffer.view(), offset as int, match_length as int),
             r is Ok ==> final(self).buffer.view().len() == old(self).buffer.view().len() + match_length,
+            // the output counter (which decides how long the dictionary stays reachable) advances by exactly the match length,
+            // except - the code's actual rule, see DESIGN.md C09 - for a match taken entirely from the dictionary, which does not advance it
+            r is Ok ==> final(self).total_output_counter == old(self).total_output_counter
+                + (if offset > old(self).buffer.view().len() && offset - old(self).buffer.view().len() >= match_length { 0int } else { match_length as int }),
+            r is Err ==> final(self).total_output_counter == old(self).total_output_counter,
         decreases (if offset > old(self).buffer.view().len() { 1int } else { 0int }), 1int,
 {
         if offset > self.buffer.len() {
@@ -278,6 +283,9 @@ impl DecodeBuffer {
             r is Ok ==>
                 final(self).buffer.view() == old(self).buffer.view() + match_copy(old(self).dict_content@ + old(self).buffer.view(), offset as int, match_length as int),
             r is Ok ==> final(self).buffer.view().len() == old(self).buffer.view().len() + match_length,
+            r is Ok ==> final(self).total_output_counter == old(self).total_output_counter
+                + (if offset - old(self).buffer.view().len() >= match_length { 0int } else { match_length as int }),
+            r is Err ==> final(self).total_output_counter == old(self).total_output_counter,
         decreases 1int, 0int,
 {
         proof {
@@ -300,7 +308,7 @@ impl DecodeBuffer {
                 let dict_slice = &self.dict_content[self.dict_content.len() - bytes_from_dict..];
                 self.buffer.extend(dict_slice);
 
-                self.total_output_counter += bytes_from_dict as u64;
+                self.total_output_counter += match_length as u64;
                 return self.repeat(self.buffer.len(), match_length - bytes_from_dict);
             } else {
                 let low = self.dict_content.len() - bytes_from_dict;
